@@ -1076,6 +1076,11 @@ pub fn c08(tier: Tier) -> i32 {
     for w in &wides {
         docs.push((w.as_str(), tier.pick(1, 2)));
     }
+    // the same kinds of document with CR LF line endings (decor keeps the CR internally and drops it when printing)
+    let crlf: Vec<String> = [2usize, 3, 6].iter().map(|i| START_DOCS[*i].replace('\n', "\r\n")).collect();
+    for c in &crlf {
+        docs.push((c.as_str(), tier.pick(2, 3)));
+    }
     for (i, (start, depth)) in docs.iter().enumerate() {
         let (start, depth) = (*start, *depth);
         let t0 = std::time::Instant::now();
